@@ -290,7 +290,8 @@ def answerFuzz (ws : List String) : String :=
                else if outcome.startsWith "ok:reenc-err" then "ok:reenc-err" else outcome
     if !(["err", "ok:reenc-ok", "ok:reenc-err", "ok:reenc-panic", "panic"].contains cls) then "bad-case fuzz-outcome " ++ outcome.take 40 else
     let cs := fuzzClauses cls
-    let arm := "fuzz-" ++ (dec.splitOn ":").head! ++ "-" ++ cls
+    -- per decoder entry point = format × record type (the per-type distribution of the search is the arm histogram)
+    let arm := "fuzz-" ++ dec ++ "-" ++ cls
     if !holdsAll cs then "propfail " ++ failedNames cs ++ " arm=" ++ arm else "ok arm=" ++ arm
   | _ => "bad-case fuzz-shape"
 
